@@ -775,6 +775,20 @@ fn run_step(h: &mut Heap, step: &Step, scratch_key: u64) -> Result<(), Fail> {
                     }
                 };
             }
+            {
+                // a byte vector written by the library has the layout of a string: loading it as one gives Err or valid UTF-8
+                let w: &[u64] = h.raw.as_ref();
+                let raw_bytes: Vec<u8> = w.iter().flat_map(|x| x.to_le_bytes()).take((w.len() * 8).saturating_sub(*which as usize % 8)).collect();
+                let mut ser: Vec<u8> = Vec::new();
+                let _ = Sds::serialize(&raw_bytes, &mut ser);
+                h.calls += 1;
+                if let Ok(sl) = String::load(&mut std::io::Cursor::new(&ser[..])) {
+                    if std::str::from_utf8(sl.as_bytes()).is_err() {
+                        return Err(Fail::new("invalid-utf8-string", format!("String::load returned a String of {} bytes that is not valid UTF-8 (from a byte vector written by the library)", sl.len())));
+                    }
+                    let _ = sl.chars().count();
+                }
+            }
             match which % 6 {
                 0 => reload!(h.plain, BitVector),
                 1 => reload!(h.sparse, SparseVector),
@@ -878,6 +892,15 @@ fn run_step(h: &mut Heap, step: &Step, scratch_key: u64) -> Result<(), Fail> {
                                     let i = idx.res(v.len(), v.len());
                                     let _ = catch(|| v[i]);
                                     let _ = v.iter().map(|b| *b as usize).sum::<usize>();
+                                }
+                                // the same bytes viewed as a string (identical layout): refused, or a valid str
+                                if let Ok(v) = MappedStr::new(&map, o) {
+                                    view_inside("MappedStr(over bytes)", o, v.map_offset(), v.map_len(), total)?;
+                                    let st: &str = v.as_ref();
+                                    if std::str::from_utf8(st.as_bytes()).is_err() {
+                                        return Err(Fail::new("invalid-utf8-str", format!("MappedStr::new created a str of {} bytes that is not valid UTF-8 (over a byte vector written by the library)", st.len())));
+                                    }
+                                    let _ = st.chars().count();
                                 }
                             }
                             4 if slot == Some(4) || o >= total => {
